@@ -190,7 +190,7 @@ def doBuild (inp impl : Json) : R OpResult := do
     | .panic => panicJ
     | .ok c => mkObj [("name", strJ cfg.canaryName), ("owner", boolJ true), ("ingress", ingressJ c)]
   let noPanic := !isPanic impl
-  let paths ← if isPanic impl then pure false else do
+  let paths ← if isPanic impl then pure true else do   -- a panic is reported by `noPanic`
     let ci ← ingressOf (← jget impl "ingress")
     pure (pathsOk cfg st.rules ci.rules)
   let exp := expectedRules cfg st.rules
@@ -238,7 +238,7 @@ def doLua2 (inp impl : Json) : R OpResult := do
   return { model := model,
            holds := [("C14.scriptHistory", hist)],
            tags := ["op:lua2", "class:" ++ classTag cls,
-                    "pair:" ++ stepKind s1.mts s1.rhm s1.weight.isSome ++ "→" ++ stepKind s2.mts s2.rhm s2.weight.isSome]
+                    "pair:" ++ stepKind s1.mts s1.rhm false ++ "→" ++ stepKind s2.mts s2.rhm false]
                    ++ (if both then [] else ["trivial"]) }
 
 structure SeqAcc where
